@@ -1,0 +1,48 @@
+//go:build verif
+
+// Verification hooks. This file only exposes internals to the checks in /verif;
+// it is compiled only with -tags verif and changes no behaviour.
+
+package canonicalizer
+
+import "github.com/nlnwa/whatwg-url/url"
+
+// VerifProfile is a copy of the fields of a profile.
+type VerifProfile struct {
+	Parser                  url.Parser
+	RemoveUserInfo          bool
+	RemovePort              bool
+	RemoveFragment          bool
+	SortQuery               int
+	RepeatedPercentDecoding bool
+	DefaultScheme           string
+}
+
+func VerifProfileOf(p url.Parser) (VerifProfile, bool) {
+	pp, ok := p.(*profile)
+	if !ok {
+		return VerifProfile{}, false
+	}
+	return VerifProfile{
+		Parser:                  pp.Parser,
+		RemoveUserInfo:          pp.removeUserInfo,
+		RemovePort:              pp.removePort,
+		RemoveFragment:          pp.removeFragment,
+		SortQuery:               int(pp.sortQuery),
+		RepeatedPercentDecoding: pp.repeatedPercentDecoding,
+		DefaultScheme:           pp.defaultScheme,
+	}, true
+}
+
+func VerifDecodeEncode(s string, tr *url.PercentEncodeSet) string {
+	return decodeEncode(s, tr)
+}
+
+func VerifRepeatedDecode(s string) string {
+	return repeatedDecode(s)
+}
+
+// VerifCanonicalize calls Canonicalize on a profile.
+func VerifCanonicalize(p url.Parser, u *url.Url) (*url.Url, error) {
+	return p.(*profile).Canonicalize(u)
+}
